@@ -58,6 +58,10 @@ def _child(argv, cwd, env, out_path, err_path, stdin_path, opts):
     main_ident = threading.get_ident()
     for s in (signal.SIGINT, signal.SIGTERM, signal.SIGCHLD):
         signal.signal(s, signal.default_int_handler if s == signal.SIGINT else signal.SIG_DFL)
+    if opts.get("inherit_ignored"):
+        # started like `cond run ... &` from a non-interactive shell / under `trap '' INT TERM`
+        signal.signal(signal.SIGINT, signal.SIG_IGN)
+        signal.signal(signal.SIGTERM, signal.SIG_IGN)
 
     for delay_ms, code in opts.get("prefork", []) or []:
         # children of the Conductor process that Conductor itself did not start
